@@ -60,6 +60,7 @@ type c14Env struct {
 	wgOf  map[string]int // MapReq ID -> wg index
 	wfIdx map[*wavefront.Wavefront]int
 	nreq  int
+	samp  *c14SampExt // sampled work-groups and the engine's event queue (c14_samp.go); nil otherwise
 }
 
 func c14MkInst(op, lk, vm int) *wavefront.Inst {
@@ -252,6 +253,10 @@ func (e *c14Env) apply(op string) string {
 			return "o-"
 		}
 		return "o" + strings.Join(got, ".")
+	case "fl":
+		return c14ApplyFlush(e)
+	case "fe":
+		return c14ApplyFire(e, wfAt(1))
 	case "wc":
 		wf := wfAt(1)
 		if wf == nil {
@@ -473,7 +478,9 @@ func c14GenAbs(rng *Rng) string {
 	ops := []string{head}
 	for k := rng.Range(1, 8); k > 0; k-- {
 		i := rng.Intn(n)
-		switch rng.Intn(10) {
+		switch rng.Intn(11) {
+		case 10:
+			ops = append(ops, "fl")
 		case 0, 1, 2, 3:
 			ops = append(ops, "ev")
 		case 4:
@@ -527,6 +534,7 @@ type c14Scenario struct {
 	bar    []int  // barriers passed
 	nsent  []int  // completion messages per work-group
 	failed map[string]bool
+	nflush int
 }
 
 func (sc *c14Scenario) line() string { return strings.Join(sc.ops, " ; ") }
@@ -591,6 +599,22 @@ func (sc *c14Scenario) do(op string) string {
 		i, _ := strconv.Atoi(t[1])
 		sc.arr[i]++
 	}
+	if t[0] == "fl" {
+		// a flush cancels every barrier arrival that has not been released: the wavefront is Ready
+		// again with the PC still on its s_barrier and executes it once more
+		sc.nflush++
+		for i := range e.wfs {
+			if i >= len(sc.arr) {
+				break
+			}
+			if before.state[i] == wavefront.WfAtBarrier || (before.state[i] == wavefront.WfRunning && before.op[i] == 10 && before.inEx[i]) {
+				sc.arr[i]--
+				sc.todo[i]++
+			}
+			sc.memK[i] = 0
+		}
+		c14FlushOracle(sc, before, after)
+	}
 	if t[0] == "ev" {
 		for i, wf := range e.wfs {
 			if !before.inEx[i] {
@@ -630,6 +654,9 @@ func (sc *c14Scenario) do(op string) string {
 		}
 	}
 	for _, g := range sc.hook.sends[nsend:] {
+		if g >= len(sc.nsent) {
+			continue // a sampled work-group: judged by the oracles of c14_samp.go
+		}
 		want[g]--
 		sc.nsent[g]++
 		if sc.nsent[g] > 1 {
@@ -819,6 +846,7 @@ func c14RunScenario(r *Run, rng *Rng, shape string) {
 		sc.e.cu.ToACE.AcceptHook(sc.hook)
 		evalBias := rng.Pick(10, 25, 50)
 		drainBias := rng.Pick(2, 8, 25)
+		flushBias := rng.Pick(0, 0, 1, 3)
 		// the barrier arrivals of a "big" scenario come in bursts, so the 16-entry buffer overflows
 		for step := 0; step < 30*n+100 && !sc.allDone(); step++ {
 			switch {
@@ -826,6 +854,8 @@ func c14RunScenario(r *Run, rng *Rng, shape string) {
 				sc.do("ev")
 			case rng.Chance(drainBias):
 				sc.do(fmt.Sprintf("dr %d", rng.Range(1, 4)))
+			case rng.Chance(flushBias):
+				sc.do("fl")
 			default:
 				sc.act(rng, rng.Intn(n), shape == "big" && rng.Chance(70))
 			}
@@ -858,6 +888,9 @@ func c14RunScenario(r *Run, rng *Rng, shape string) {
 	}
 	sc.out = append(sc.out, sc.e.dump(), "out="+sc.e.outMsgs())
 	r.Count("sc:" + shape)
+	if sc.nflush > 0 {
+		r.Count("sc:with-flush")
+	}
 	r.Case(sc.line(), strings.Join(sc.out, " "))
 }
 
